@@ -17,6 +17,7 @@ from mc.engine import ok, bad, unspecified
 from mc.common import call, Raised, DimArray, py, same_scalar, same_list
 
 ID = "C04"
+VARIANT_SWEEP = True      # thorough tier: every case on every history variant of its array (see mc/domains.py VSHIFT)
 TITLE = "arithmetic aligns by name and label"
 RULE = ("all ordered pairs of a pool of arrays (0-3 dims over x,y,z [t thorough] in every dimension order; per-dimension "
         "label vectors equal / permuted / overlapping / nested / disjoint / int-vs-float, stored inc / dec / shuffled) "
